@@ -7,7 +7,8 @@ from framework import Task
 
 
 def tasks(tier, seed):
-    ts = CC.rt_tasks(tier, kinds={'uninit_output'}) + CC.rt_tasks(tier, kinds={'uninit_output'}, entry='h_default')
+    # reading outside the caller's containers while encoding puts foreign heap bytes into the output: counts here, too
+    ts = CC.rt_tasks(tier, kinds={'uninit_output', 'memory'}) + CC.rt_tasks(tier, kinds={'uninit_output', 'memory'}, entry='h_default')
     # sparse population: only the members that steer the codec's control flow (found by a pre-run: they occur in a path
     # condition of the round-trip harness) are set, symbolically; every other member keeps its constructed value, so a
     # member without initialiser that only one variant emits shows up as dependence on never-written memory
@@ -19,16 +20,19 @@ def tasks(tier, seed):
         cls, names = item
         if not names:
             continue
-        fills = ' '.join('vp_fill(a.%s, "%s");' % (n, n) for n in names)
+        stale = set(codec.length_fields(cls)) | {'headerSize', 'objectSize'}
+        fills = ' '.join('vp_fill(a.%s, "%s%s");' % (n, 'stale:' if n in stale else '', n) for n in names)
         txt = '#define VP_SPARSE_FILL %s\n' % fills + codec.gen(cls, maxlen=0)
         ts.append(Task('%s.h_sparse' % cls, txt, 'h_sparse', codec.make_uninit_judge(cls),
                        desc='%s constructed in never-written heap memory, only its control-flow-steering members (%s) set '
                             'symbolically, everything else as constructed; write()' % (cls, ', '.join(names)),
-                       reach=('h_sparse:end',), bounds='one object', kinds={'uninit_output'}, opts=dict(validate=False)))
+                       reach=('h_sparse:end',), bounds='one object', kinds={'uninit_output', 'memory'}, opts=dict(validate=False)))
     # independence from timing: sessions whose payload is an exact multiple of the container size, every schedule with one preemption
     ts += SCH.sched_tasks(tier, ['CHECK_C04'], 'sched_exact', ('C04:',), {'schedule_dependent', 'assert', 'deadlock', 'hang'}, digest=True,
                           extra_defs='#define CONTAINER_DIVIDES_PAYLOAD 2\n')
     ts += SCH.sched_tasks(tier, ['CHECK_C04'], 'sched', ('C04:',), {'schedule_dependent', 'assert', 'deadlock', 'hang'}, digest=True)
+    # independence from earlier / concurrent activity in the process: a second File being written at the same time
+    ts += SCH.two_file_tasks(tier, 'det', {'assert', 'race', 'memory', 'deadlock', 'hang'}, race=True)
     meta = dict(
         level='model_checking',
         explanation='Objects live in heap/stack memory whose never-written bytes are distinct unconstrained symbols '
